@@ -83,10 +83,13 @@ PENDING = "check not built yet in this session (work in progress, see DESIGN.md 
 
 checks = []
 na = []
+BATTERIES = " In addition, deterministic long-input / call-order batteries (DESIGN.md 8.1: alignment sweeps, runs and exact counts, sandwiches and multi-megabyte inputs, exhaustive pair sets, plane/byte aliases, hash-colliding pairs, owned arguments with spare capacity) run in the quick tier; they were added after three rounds of adversarially seeded changes (DESIGN.md 9), whose hit rates before/after are reported there."
 for p in props:
     i = p['id']
     if i in CHECKS:
         tech, text, note, ref = CHECKS[i]
+        if i in ("C01","C02","C03","C04","C05","C06","C07","C08","C09","C10","C11","C12","C13","C14","C15","C16","C17","C18") and "DESIGN.md 8.1" not in text:
+            text = text + BATTERIES
         checks.append({
             "property_id": i,
             "quick_cmd": f"./check {i} quick",
@@ -117,7 +120,7 @@ m = {
  ],
  "checks": checks,
  "not_applicable": na,
- "notes": "All checks: ./check <id> <quick|thorough>; exit 0 held, 1 + VIOLATION line, 2 infrastructure trouble (build failure, watchdog). Known findings: /verif/known_findings.json. Regression inputs replayed first in every run: /verif/replays/regress/.",
+ "notes": "Sensitivity: 108 seeded changes in three rounds (36 ordinary, 72 adversarial) kept under /verif/seeded with meta.json; 16 behaviour-preserving refactors x 18 checks raised no alarm. All checks: ./check <id> <quick|thorough>; exit 0 held, 1 + VIOLATION line, 2 infrastructure trouble (build failure, watchdog). Known findings: /verif/known_findings.json. Regression inputs replayed first in every run: /verif/replays/regress/.",
 }
 json.dump(m, open(os.path.join(V, 'MANIFEST.json'), 'w'), indent=1)
 print("checks:", len(checks), "not_applicable:", len(na))
